@@ -165,6 +165,41 @@ def run(ctx):
             ctx.put_sample({'random_stream_len': ln, 'messages': len(msgs),
                             'head': ' '.join('%02X' % b for b in data[:24])})
     ctx.extra('random_streams', nr)
+    # an unfinished message P, a whole message W, then bytes C that would have completed P:
+    # one stream, fed in three chunks (bytes and list) and byte by byte
+    if ctx.shard in (10 % ctx.nshards, 11 % ctx.nshards):
+        partial = [[0xF0, 1], [0xF0], [0x92, 1], [0xE3, 5], [0xF2, 7], [0xB0], [0xC5], [0xF1], [0xF0, 1, 0xF8]]
+        whole = [[0x90, 0x40, 0x41], [0xC1, 5], [0xF8], [0xF6], [0xF3, 9], [0xF0, 3, 0xF7], [0xE0, 1, 2], [0xF2, 1, 2],
+                 [0xFE], [0xD0, 7]]
+        conts = [[2, 0xF7], [2], [2, 3], [0xF7], [], [0xF8, 2, 0xF7]]
+        k = 0
+        for P in partial:
+            for W in whole:
+                for C in conts:
+                    k += 1
+                    if k % 2 != ctx.shard % 2:
+                        continue
+                    data = P + W + C
+                    ref = judge_stream(ctx, data, 'interrupted')
+                    if ref is None:
+                        continue
+                    case = {'kind': 'stream', 'bytes': data, 'via': 'three-chunks'}
+                    for cont in (bytes, list, bytearray):
+                        try:
+                            p = Parser()
+                            got = []
+                            for chunk in (P, W, C):
+                                p.feed(cont(chunk))
+                                if cont is list:
+                                    got.extend(p)
+                            got.extend(p)
+                            ctx.check('same result in two chunks with an abandoned loop', got == ref,
+                                      f'three-chunks-differs:{cont.__name__}', case,
+                                      lambda: {'got': [m.hex() for m in got], 'want': [m.hex() for m in ref]})
+                        except Exception as exc:
+                            ctx.check('no exception', False, f'three-chunks:{type(exc).__name__}', case, str(exc))
+                    ctx.nontrivial(('interrupted', tuple(data)))
+                    n += 1
     # size ladders: long runs of data bytes / long sysex (status bytes are rare here)
     sizes = [253, 254, 255, 256, 257, 1023, 1024, 1025, 4095, 4096, 4097, 65535, 65536, 65537, 70000]
     for si, ln in enumerate(sizes):
